@@ -674,7 +674,7 @@ func printTerm(sb *strings.Builder, t *Term, names map[int]string, depth int) {
 		sb.WriteByte(')')
 	case "forall":
 		fmt.Fprintf(sb, "(forall ((%s (_ BitVec %d))) ", smtName(t.Name), t.P1)
-		printTerm(sb, t.Args[0], names, depth+1)
+		printSharedUnder(sb, t.Args[0], names)
 		sb.WriteByte(')')
 	default:
 		sb.WriteString("(" + t.Op)
@@ -936,6 +936,65 @@ func printShared(sb *strings.Builder, t *Term) {
 	}
 	visit(t)
 	names := map[int]string{}
+	n := 0
+	for _, u := range order {
+		if len(u.Args) == 0 || refs[u.id] < 2 || u == t {
+			continue
+		}
+		nm := fmt.Sprintf("l!%d", u.id)
+		sb.WriteString("(let ((" + nm + " ")
+		printTermTop(sb, u, names)
+		sb.WriteString(")) ")
+		names[u.id] = nm
+		n++
+	}
+	printTerm(sb, t, names, 0)
+	for i := 0; i < n; i++ {
+		sb.WriteByte(')')
+	}
+}
+
+// printSharedUnder prints the body of a quantifier: sub-terms used more than once inside the body (and not already
+// named outside) are bound by let, so the text stays linear in the DAG size.  Nested quantifiers are leaves here
+// (their bodies are shared by their own printSharedUnder, inside their binder).
+func printSharedUnder(sb *strings.Builder, t *Term, outer map[int]string) {
+	refs := map[int]int{}
+	var order []*Term
+	seen := map[int]bool{}
+	var visit func(u *Term)
+	visit = func(u *Term) {
+		if outer != nil {
+			if _, ok := outer[u.id]; ok {
+				return
+			}
+		}
+		refs[u.id]++
+		if seen[u.id] {
+			return
+		}
+		seen[u.id] = true
+		if u.Op != "forall" {
+			for _, a := range u.Args {
+				visit(a)
+			}
+		}
+		order = append(order, u)
+	}
+	visit(t)
+	shared := 0
+	for _, u := range order {
+		if len(u.Args) > 0 && refs[u.id] >= 2 && u != t {
+			shared++
+		}
+	}
+	if shared == 0 {
+		printTerm(sb, t, outer, 0)
+		return
+	}
+	names := map[int]string{}
+	for k, v := range outer {
+		names[k] = v
+	}
 	n := 0
 	for _, u := range order {
 		if len(u.Args) == 0 || refs[u.id] < 2 || u == t {
